@@ -296,7 +296,8 @@ def main(chk):
         'flavours) on streams whose length field ranges over negative, too-small and valid values: all paths terminate within the unwinding bound in Ok / Err / an unwinding panic, none '
         'reaches process exit, and anything re-encoded for the server is well-framed. The consequence of a panic or early return while a '
         'server connection is borrowed is decided by the hand-over gate (C02 O4), re-asserted here. Panic sites are inventoried in the '
-        'evidence as sender-only disconnects, not as violations.')
+        'evidence as sender-only disconnects, not as violations.  Client-controlled bytes that come BACK: an ErrorResponse quoting the statement in the client\'s encoding (never-valid UTF-8 bytes) '
+        'is relayed by Server::recv on a connection with a statement cache, and the connection stays in step.')
     chk.assumptions += [
         'a panic inside a client\'s Tokio task ends that task only (unwinding; checked: no panic = "abort")',
         'memory exhaustion through large declared lengths, slow-loris behaviour, statistics/shutdown accounting and the SQL parser itself are outside the claim',
